@@ -872,6 +872,18 @@ func (x *Exec) evalCall(env *Env, e *ECall) SV {
 		f, a := arg(0), arg(1)
 		x.U.Declare("app_Int_Int", SInt, SInt, SInt)
 		return SV{T: App("app_Int_Int", SInt, f.T, a.T)}
+	case "appptr":
+		// appptr(f, v): the pointer a pure function-typed parameter f returns when called with (a pointer to) the value v
+		f, a := arg(0), arg(1)
+		name := "app_Int_" + mangleSort(a.T.Sort)
+		x.U.Declare(name, SInt, SInt, a.T.Sort)
+		var rt types.Type
+		if f.Typ != nil {
+			if sig, ok := types.Unalias(f.Typ).Underlying().(*types.Signature); ok && sig.Results().Len() == 1 {
+				rt = sig.Results().At(0).Type()
+			}
+		}
+		return SV{T: App(name, SInt, f.T, a.T), Typ: rt}
 	case "calls":
 		f := arg(0)
 		if c, ok := env.state().ghost["calls:"+f.T.String()]; ok {
